@@ -51,7 +51,39 @@ var (
 	pauseIn   int
 	pauseInFn func()
 	steps     int // all calls under the watched root since Reset
+	// handles handed out and not closed yet, by the path they were opened for: when a process dies the kernel closes
+	// its descriptors; the parked goroutines of a simulated dead process never will, so Forget does it for them
+	openFiles = map[*os.File]string{}
 )
+
+func track(f *os.File, path string) *File {
+	mu.Lock()
+	openFiles[f] = filepath.Clean(path)
+	mu.Unlock()
+	return &File{f}
+}
+
+// Close closes the handle and drops it from the table of open handles.
+func (f *File) Close() error {
+	mu.Lock()
+	delete(openFiles, f.File)
+	mu.Unlock()
+	return f.File.Close()
+}
+
+// OpenHandles returns the number of handles under root that were handed out and not closed.
+func OpenHandles(root string) int {
+	root = filepath.Clean(root)
+	mu.Lock()
+	defer mu.Unlock()
+	n := 0
+	for _, p := range openFiles {
+		if under(p, root) {
+			n++
+		}
+	}
+	return n
+}
 
 // PauseAt installs a one-shot pause point (kind as in Op.Kind; reads such as "stat" count too).
 func PauseAt(kind, suffix string, fn func()) {
@@ -116,8 +148,16 @@ func Kill(root string) {
 
 // Forget removes the dead mark of a root (when the directory has been deleted).
 func Forget(root string) {
+	root = filepath.Clean(root)
 	mu.Lock()
-	delete(deadRoot, filepath.Clean(root))
+	delete(deadRoot, root)
+	// the descriptors of the dead process go with it
+	for f, p := range openFiles {
+		if under(p, root) {
+			_ = f.Close()
+			delete(openFiles, f)
+		}
+	}
 	mu.Unlock()
 }
 
@@ -276,7 +316,7 @@ func CreateTemp(d, pat string) (*File, error) {
 		if err != nil {
 			return nil, err
 		}
-		return &File{f}, nil
+		return track(f, filepath.Join(d, pat)), nil
 	case doDieAfter:
 		if f, err := os.CreateTemp(d, pat); err == nil {
 			_ = f.Close()
@@ -287,7 +327,7 @@ func CreateTemp(d, pat string) (*File, error) {
 	if err != nil {
 		return nil, err
 	}
-	return &File{f}, nil
+	return track(f, filepath.Join(d, pat)), nil
 }
 
 func WriteFile(n string, b []byte, m os.FileMode) error {
@@ -363,13 +403,13 @@ func Create(n string) (*File, error) {
 		if err != nil {
 			return nil, err
 		}
-		return &File{f}, nil
+		return track(f, n), nil
 	}
 	f, err := os.Create(n)
 	if err != nil {
 		return nil, err
 	}
-	return &File{f}, nil
+	return track(f, n), nil
 }
 
 func OpenFile(n string, flag int, perm os.FileMode) (*File, error) {
@@ -380,13 +420,13 @@ func OpenFile(n string, flag int, perm os.FileMode) (*File, error) {
 		if err != nil {
 			return nil, err
 		}
-		return &File{f}, nil
+		return track(f, n), nil
 	}
 	f, err := os.OpenFile(n, flag, perm)
 	if err != nil {
 		return nil, err
 	}
-	return &File{f}, nil
+	return track(f, n), nil
 }
 
 func Stat(n string) (fs.FileInfo, error) {
@@ -400,7 +440,7 @@ func Open(n string) (*File, error) {
 	if err != nil {
 		return nil, err
 	}
-	return &File{f}, nil
+	return track(f, n), nil
 }
 
 func ReadFile(n string) ([]byte, error) {
